@@ -286,6 +286,9 @@ static struct region *find_region (const void *addr) {
    its raw address under a tag so that it can never look mapped */
 static unsigned long canon (const void *addr) {
   struct region *r = find_region (addr);
+  if (r == NULL) /* the one-past-the-end address of a region (a full holder's free pointer) belongs to that region */
+    for (int i = 0; i < nregions; i++)
+      if (regions[i].live && (const uint8_t *) addr == regions[i].base + regions[i].len) r = &regions[i];
   if (r == NULL) return (1ul << 60) | (unsigned long) (uintptr_t) addr;
   return ((unsigned long) (r - regions + 1) << 32) + (unsigned long) ((const uint8_t *) addr - r->base);
 }
@@ -520,6 +523,57 @@ static void api_out (struct api *a, const char *line) {
   oputs (line);
 }
 
+/* ---- code-holder correspondence (checks/c17.py, coq/C17/CodeHolder.v): ops on the real code holders
+   pub L | new S | puba L | pubax L | chg K OFF LEN | upd K off... ; K = index of an earlier successful publish */
+#define MAXBLOB 4096
+static uint8_t *blobs[MAXBLOB];
+static int nblobs, ch_calls;
+static uint8_t *last_new;
+static uint8_t chbuf[1 << 16];
+
+static int ch_exec (struct cx *c, const char *cmd) {
+  MIR_context_t ctx = c->api.ctx;
+  char op[16];
+  unsigned long a1 = 0, a2 = 0, a3 = 0;
+  int n = sscanf (cmd, "%15s %lu %lu %lu", op, &a1, &a2, &a3);
+  uint8_t *res = NULL;
+  if (n < 1 || ctx == NULL) return -1;
+  memset (chbuf, ++ch_calls % 250 + 1, sizeof (chbuf)); /* content differs from what any earlier call wrote */
+  if (strcmp (op, "pub") == 0) {
+    if (a1 > sizeof (chbuf) || nblobs == MAXBLOB) return -1;
+    res = _MIR_publish_code (ctx, chbuf, a1);
+    blobs[nblobs++] = res;
+  } else if (strcmp (op, "new") == 0) {
+    res = last_new = _MIR_get_new_code_addr (ctx, a1);
+  } else if (strcmp (op, "puba") == 0 || strcmp (op, "pubax") == 0) {
+    if (a1 > sizeof (chbuf) || nblobs == MAXBLOB) return -1;
+    res = _MIR_publish_code_by_addr (ctx, last_new + (op[4] == 'x' ? 16 : 0), chbuf, a1);
+    if (res != NULL) blobs[nblobs++] = res;
+  } else if (strcmp (op, "chg") == 0) {
+    if (n < 4 || (int) a1 >= nblobs || a3 > sizeof (chbuf)) return -1;
+    _MIR_change_code (ctx, blobs[a1] + a2, chbuf, a3);
+  } else if (strcmp (op, "upd") == 0) {
+    MIR_code_reloc_t relocs[32];
+    size_t nloc = 0;
+    const char *p = cmd + 3;
+    unsigned long k, off;
+    int used;
+    void *val = (void *) (uintptr_t) (0x0101010101010101ull * (unsigned) (ch_calls % 250 + 1));
+    if (sscanf (p, "%lu%n", &k, &used) != 1 || (int) k >= nblobs) return -1;
+    p += used;
+    while (nloc < 32 && sscanf (p, "%lu%n", &off, &used) == 1) {
+      relocs[nloc].offset = off;
+      relocs[nloc].value = val;
+      nloc++;
+      p += used;
+    }
+    _MIR_update_code_arr (ctx, blobs[k], nloc, relocs);
+  } else
+    return -1;
+  oprintf ("R ch %lu", res == NULL ? 0ul : canon (res));
+  return 0;
+}
+
 int main (void) {
   static char line[1 << 20];
   static char altstack[1 << 16];
@@ -572,6 +626,13 @@ int main (void) {
       dst->wbuf = __real_realloc (dst->wbuf, src->wlen + 1);
       memcpy (dst->wbuf, src->wbuf, src->wlen);
       dst->wlen = dst->wcap = src->wlen;
+      continue;
+    }
+    if (strncmp (line + 2, "ch_", 3) == 0) { /* code-holder layer driven directly (private _MIR_* API) */
+      if (ch_exec (&cxs[c], line + 5) != 0) {
+        rc = 64;
+        break;
+      }
       continue;
     }
     if (api_exec (&cxs[c].api, line + 2) != 0) {
